@@ -80,11 +80,18 @@ func wireFindings(tr *memnet.Trace) (sig, detail string) {
 // (the reader goroutine writes acknowledgements) and finally somebody closes.
 func c10Base(rng *rand.Rand, ov *overlap) (string, string, []string) {
 	tr := memnet.NewTrace()
-	peer := &scen.Script{Tr: tr, AutoConnack: true, AutoPing: true, AutoAck: true}
+	peer := &scen.Script{Tr: tr, AutoConnack: true, AutoPing: true}
 	outID := uint16(2000)
+	nreq := 0
 	peer.OnPkt = func(c *memnet.Conn, p *mqttref.Packet, raw []byte) bool {
 		if p == nil {
 			return false
+		}
+		// acknowledge like a broker, but withhold every fifth acknowledgement: the caller (short deadline)
+		// times out while other acknowledgements are being dispatched by the reader goroutine
+		nreq++
+		if a := scen.AckFor(p); a != nil && nreq%5 != 0 {
+			c.SendLocked(a, "")
 		}
 		switch p.Type {
 		case mqttref.PUBLISH:
@@ -118,6 +125,8 @@ func c10Base(rng *rand.Rand, ov *overlap) (string, string, []string) {
 			for k := 0; k < 12; k++ {
 				kind := []string{"Publish0", "Publish1", "Publish2", "Subscribe", "Unsubscribe", "Ping", "Handle", "Stats", "Done/Err"}[lr.Intn(9)]
 				ov.enter(kind)
+				// requests carry a short deadline: a withheld acknowledgement ends the call by its context
+				ctx, rcancel := context.WithTimeout(ctx, time.Duration(200+lr.Intn(1800))*time.Microsecond)
 				switch kind {
 				case "Publish0", "Publish1", "Publish2":
 					q := mqtt.QoS(kind[7] - '0')
@@ -139,6 +148,7 @@ func c10Base(rng *rand.Rand, ov *overlap) (string, string, []string) {
 					_ = cli.Done()
 					_ = cli.Err()
 				}
+				rcancel()
 				ov.leave(kind)
 			}
 			if i == closeAt {
